@@ -157,6 +157,11 @@ pub fn check_eq_hash() -> (Vec<Finding>, u64) {
         let mut x = base.clone();
         x.name = RefName::txt("other.example.com");
         recs.push(x);
+        // owner differing only in letter case: whether that is "equal" is the library's choice,
+        // but whatever it chooses, equal values must hash equally
+        let mut x = base.clone();
+        x.name = RefName::txt("OWNER.Example.COM");
+        recs.push(x);
     }
     let mut out = Vec::new();
     let mut pairs = 0u64;
@@ -168,7 +173,9 @@ pub fn check_eq_hash() -> (Vec<Finding>, u64) {
             for (j, b) in libs.iter().enumerate() {
                 n += 1;
                 let model_eq = recs[i].name == recs[j].name && recs[i].class == recs[j].class && recs[i].rdata == recs[j].rdata;
-                if (a == b) != model_eq {
+                let lower = |n: &RefName| format!("{:?}", n).to_ascii_lowercase();
+                let only_case = !model_eq && lower(&recs[i].name) == lower(&recs[j].name) && recs[i].class == recs[j].class && format!("{:?}", recs[i].rdata).to_ascii_lowercase() == format!("{:?}", recs[j].rdata).to_ascii_lowercase();
+                if !only_case && (a == b) != model_eq {
                     bad.push(("record-eq".to_string(), format!("records {} and {}: == gives {}, name/class/rdata equality is {}", i, j, a == b, model_eq)));
                 }
                 if a == b && h(a) != h(b) {
@@ -177,7 +184,7 @@ pub fn check_eq_hash() -> (Vec<Finding>, u64) {
                 if a.name == b.name && h(&a.name) != h(&b.name) {
                     bad.push(("name-eq-hash".to_string(), format!("names of {} and {} equal but hash differently", i, j)));
                 }
-                if (a.name == b.name) != (recs[i].name == recs[j].name) {
+                if lower(&recs[i].name) != lower(&recs[j].name) && a.name == b.name || recs[i].name == recs[j].name && a.name != b.name {
                     bad.push(("name-eq".to_string(), format!("name equality of {} and {} wrong", i, j)));
                 }
                 if a.rdata == b.rdata && h(&a.rdata) != h(&b.rdata) {
@@ -309,7 +316,7 @@ pub fn run(ctx: &Ctx) {
     t.nontrivial += pairs;
     t.outcome("eq-hash");
     ctx.violations(f);
-    ctx.space("equality / hash: all ordered pairs of 60 records (and of their names and RDATA)", pairs, "complete");
+    ctx.space("equality / hash: all ordered pairs of 72 records (and of their names and RDATA)", pairs, "complete");
     let mut total = 0u64;
     for nip in 0..=4usize {
         for nport in 0..=4usize {
